@@ -118,6 +118,20 @@ func runC16(r *simkit.Run) {
 					newTr = append(newTr, t)
 				}
 			}
+			if len(active) > 0 && c.Chance(70, "re-registration") {
+				// the registry contract does not refuse a second registration of the very same trigger
+				// (same eon, prefix, sender, definition => same identity): the later registration
+				// replaces the earlier one's expiry (ttl 0 included: expiry = this block)
+				o := active[c.Intn(len(active), "re-registered-trigger")]
+				t := &c16Trigger{eon: o.eon, prefix: o.prefix, sender: o.sender, def: o.def, defB: o.defB, topic: o.topic}
+				if positional[o.def] {
+					positional[t.def] = true
+				}
+				t.expiry = uint64(n + c.Range(0, 8, "re-expiry-delta"))
+				specs = append(specs, logEventTriggerRegistered(t.eon, t.prefix, t.sender, t.defB, t.expiry))
+				newTr = append(newTr, t)
+				r.Probe("trigger-registered-again")
+			}
 			// logs of the user contract: aimed at active (and just registered) triggers
 			cand := append(append([]*c16Trigger{}, active...), newTr...)
 			for _, t := range cand {
@@ -180,17 +194,56 @@ func runC16(r *simkit.Run) {
 	r.Sample["chain"] = fmt.Sprintf("H=%d triggers=%d forkAt=%d", H, len(trigs), forkAt)
 
 	// ---- reference: fired set on the final canonical chain ----
+	// Sequential reading of the canonical chain: the logs of block n are judged against the
+	// registrations of the blocks before n (a later registration of the same identity replaces the
+	// earlier one's expiry), a trigger fires at most once, at the first matching log.
 	want := map[string]string{}
-	for _, t := range trigs {
-		if !chain.IsCanonical(t.regBlk.Number, t.regBlk.Hash.Bytes()) {
-			continue
+	{
+		type regState struct {
+			t *c16Trigger
 		}
-		for _, l := range chain.CanonicalLogs(t.regBlk.Number+1, t.expiry) {
-			if m, _ := t.def.Match(l.Address, l.Topics, l.Data); m {
-				want[fmt.Sprintf("%d/%x", t.eon, ethcrypto.Keccak256(append(append(append([]byte{}, t.prefix[:]...), t.sender.Bytes()...), t.defB...)))] = fmt.Sprintf("b=%d/%x tx=%d log=%d", l.BlockNumber, l.BlockHash.Bytes()[:6], l.TxIndex, l.Index)
-				break
+		regsIn := map[common.Hash][]*c16Trigger{}
+		for _, t := range trigs {
+			regsIn[t.regBlk.Hash] = append(regsIn[t.regBlk.Hash], t)
+		}
+		cur := map[string]*c16Trigger{}
+		var order []string
+		for n := uint64(1); n <= final.Number; n++ {
+			blk := chain.Canonical(n)
+			for _, l := range chain.CanonicalLogs(n, n) {
+				for _, k := range order {
+					t := cur[k]
+					if _, fired := want[k]; fired || t.expiry < n {
+						continue
+					}
+					if m, _ := t.def.Match(l.Address, l.Topics, l.Data); m {
+						want[k] = fmt.Sprintf("b=%d/%x tx=%d log=%d", l.BlockNumber, l.BlockHash.Bytes()[:6], l.TxIndex, l.Index)
+					}
+				}
+			}
+			for _, t := range regsIn[blk.Hash] {
+				k := fmt.Sprintf("%d/%x", t.eon, ethcrypto.Keccak256(append(append(append([]byte{}, t.prefix[:]...), t.sender.Bytes()...), t.defB...)))
+				if _, seen := cur[k]; !seen {
+					order = append(order, k)
+				}
+				cur[k] = t
 			}
 		}
+	}
+	// identities registered more than once somewhere in the block tree: together with a reorg they
+	// run into the recorded finding (known_findings.json: the upsert moves the row's block number to
+	// the latest registration, the reorg rollback deletes by block number and so forgets a
+	// registration made before the rollback point). Violations on such identities in runs with a
+	// fork carry their own signature so that the finding hides nothing else.
+	regCount := map[string]int{}
+	for _, t := range trigs {
+		regCount[fmt.Sprintf("%d/%x", t.eon, ethcrypto.Keccak256(append(append(append([]byte{}, t.prefix[:]...), t.sender.Bytes()...), t.defB...)))]++
+	}
+	sigFor := func(bi int, k string) string {
+		if forkAt != 0 && regCount[k] >= 2 {
+			return "re-registered-trigger+reorg"
+		}
+		return batchingSig(bi)
 	}
 	r.Sample["reference_fired"] = len(want)
 	if len(want) > 0 {
@@ -298,10 +351,10 @@ func runC16(r *simkit.Run) {
 		for _, k := range keys {
 			g, ok := got[k]
 			if !ok {
-				r.Fail("trigger-not-fired", batchingSig(bi), "batching %s: trigger %s must fire at %s (first matching log after its registration block and not after its expiry) but no fired row exists", desc, k, want[k])
+				r.Fail("trigger-not-fired", sigFor(bi, k), "batching %s: trigger %s must fire at %s (first matching log after its registration block and not after its expiry) but no fired row exists", desc, k, want[k])
 			}
 			if g != want[k] {
-				r.Fail("trigger-fired-at-wrong-log", batchingSig(bi), "batching %s: trigger %s fired at %s, the first matching canonical log is %s", desc, k, g, want[k])
+				r.Fail("trigger-fired-at-wrong-log", sigFor(bi, k), "batching %s: trigger %s fired at %s, the first matching canonical log is %s", desc, k, g, want[k])
 			}
 		}
 		var gkeys []string
@@ -311,7 +364,7 @@ func runC16(r *simkit.Run) {
 		sort.Strings(gkeys)
 		for _, k := range gkeys {
 			if _, ok := want[k]; !ok {
-				r.Fail("trigger-fired-without-matching-log", batchingSig(bi), "batching %s: trigger %s fired at %s but no matching canonical log exists after its registration block and up to its expiry", desc, k, got[k])
+				r.Fail("trigger-fired-without-matching-log", sigFor(bi, k), "batching %s: trigger %s fired at %s but no matching canonical log exists after its registration block and up to its expiry", desc, k, got[k])
 			}
 		}
 		r.Probe("batchings-checked")
